@@ -347,9 +347,40 @@ fn rng_part(res: &mut PartResult) {
             res.violation("replacement-choices-identical-on-every-fresh-thread", format!("capacity {} of {} pushes on 48 fresh threads: every thread retained the same positions {:?}; the replacement choices are not independent between threads, so over trials on fresh threads a position is retained with probability 0 or 1 instead of {}/{}", cap, n, sets[0], cap, n), json!({"cap": cap, "n": n}));
         }
     }
+    // The enumeration over the seam's answers decides "each of n values retained with probability capacity/n" only if
+    // the real generator answers a request for one of k choices uniformly. That assumption is measured here on the real
+    // generator (a statistical test with a 7-sigma acceptance band, not an enumeration): over many trials every
+    // position is retained about capacity/n of the time, for stream lengths that are and are not powers of two.
+    for (cap, n) in [(1usize, 3usize), (1, 5), (2, 5), (3, 7), (2, 4), (1, 11)] {
+        const TRIALS: usize = 60_000;
+        let mut kept = vec![0u64; n];
+        for _ in 0..TRIALS {
+            let r = AtomicSamplingReservoir::new(cap);
+            for i in 0..n {
+                r.push((i + 1) as f64);
+            }
+            r.consume(|d| {
+                for x in d {
+                    let i = x as usize;
+                    if (1..=n).contains(&i) {
+                        kept[i - 1] += 1;
+                    }
+                }
+            });
+        }
+        res.executions += TRIALS as u64;
+        res.transitions += (TRIALS * (n + 1)) as u64;
+        let p = cap as f64 / n as f64;
+        let mean = TRIALS as f64 * p;
+        let sigma = (TRIALS as f64 * p * (1.0 - p)).sqrt();
+        states.add(&(cap, n, "uniformity"));
+        if let Some((i, k)) = kept.iter().enumerate().find(|(_, k)| (**k as f64 - mean).abs() > 7.0 * sigma) {
+            res.violation("retention-frequency-not-capacity-over-n", format!("capacity {} of {} pushes, {} trials on the real generator: position {} was retained {} times, expected {:.0} +- {:.0} (7 sigma) for probability {}/{}; all positions: {:?}", cap, n, TRIALS, i, k, mean, 7.0 * sigma, cap, n, kept), json!({"cap": cap, "n": n, "uniformity": true}));
+        }
+    }
     res.states = states.len();
     res.distinct_outcomes = states.len();
-    res.sample(json!({"capacity": 2, "pushes": 8, "threads": 48, "expected": "at least two different retained sets"}));
+    res.sample(json!({"capacity": 2, "pushes": 8, "threads": 48, "expected": "at least two different retained sets; and over 60000 trials every position retained capacity/n of the time within 7 sigma"}));
 }
 
 /// Values that are not ordinary numbers: every f64 bit pattern pushed is a value like any other (NaN with a payload,
